@@ -23,7 +23,9 @@ try:
         print("PATCH DOES NOT APPLY", r.stderr); sys.exit(1)
     r = sh(f"cd {WT} && go build ./... && go build -tags verif ./...")
     res["builds"] = r.returncode == 0
-    r = sh(f"python3 /verif/tools/baseline.py {WT}")
+    os.makedirs("/tmp/mut", exist_ok=True)
+    # the service tests use a fixed TCP port: one run of the pinned suite at a time
+    r = sh(f"flock /tmp/mut/suite.lock python3 /verif/tools/baseline.py {WT}", 3600)
     res["baseline"] = r.stdout.strip().splitlines()[0] if r.stdout.strip() else r.stderr[:200]
     demos = glob.glob(os.path.join(d, "*_test.go")) + glob.glob(os.path.join(d, "demo*.go"))
     demo = demos[0] if demos else None
